@@ -315,6 +315,20 @@ func runJob(job *sim.LibJob, sh *shared) (out string, errText string) {
 			return writer.buf.String(), err.Error()
 		}
 		return writer.buf.String(), ""
+	case "new":
+		// no input at all (yq -n)
+		printer := yqlib.NewPrinter(enc, yqlib.NewSinglePrinterWriter(writer))
+		if err := yqlib.NewStreamEvaluator().EvaluateNew(job.Expr, printer); err != nil {
+			return writer.buf.String(), err.Error()
+		}
+		return writer.buf.String(), ""
+	case "allnew":
+		// eval-all over no files: one null document
+		printer := yqlib.NewPrinter(enc, yqlib.NewSinglePrinterWriter(writer))
+		if err := yqlib.NewAllAtOnceEvaluator().EvaluateFiles(job.Expr, []string{}, printer, dec); err != nil {
+			return writer.buf.String(), err.Error()
+		}
+		return writer.buf.String(), ""
 	case "string":
 		s, err := yqlib.NewStringEvaluator().Evaluate(job.Expr, string(job.Input), enc, dec)
 		if err != nil {
